@@ -1,3 +1,4 @@
 /* ghost state of the C12 contracts (contracts/C12/interval.h): chosen by the harness, read by the clauses */
 ex_t G_an, G_bn; int G_as, G_bs;
 ITV_T G_to0;
+ITV_T G_x0, G_y0;   /* entry copies of the operands for the aliased-argument variants (check C13) */
